@@ -19,8 +19,9 @@ BDiv(a, b) == BN!Div(a, b)
 BLe(a, b) == BN!Le(a, b)
 BLt(a, b) == BN!Lt(a, b)
 BNat(n) == BN!FromNat(n)
-RECURSIVE BToInt(_)
-BToInt(x) == IF x = <<>> THEN 0 ELSE x[1] + 10000 * BToInt(Tail(x))
+RECURSIVE BToIntR(_)
+BToIntR(x) == IF x = <<>> THEN 0 ELSE x[1] + 10000 * BToIntR(Tail(x))
+BToInt(x) == IF Len(x) > 2 THEN 1000000000 ELSE BToIntR(x)       \* saturating: TLC integers are 32 bit
 E9 == BNat(1000000000)
 Dec18 == BMul(E9, E9)
 F == INSTANCE Farms WITH Add <- BAdd, Sub <- BSub, Mul <- BMul, Div <- BDiv, Le <- BLe, N <- BNat, DecScale <- Dec18
@@ -359,7 +360,9 @@ JudgeCreateFarm(s, h, e, p) ==
        C11_create_one_new_farm |-> G(e.ok, Cardinality(NewFarms(s, p)) = 1),
        C11_create_explicit_id  |-> G(good /\ e.fid # "none", nid = expectedId),
        C11_create_records_budget |-> G(good, Farms(p)[nid] = [owner |-> e.sender, lp |-> e.lp, denom |-> e.denom, amount |-> e.amt, claimed |-> Z,
-                                                              rate |-> F!EmissionRate(e.amt, start, end), start |-> start, end |-> end]),
+                                                              \* epochs beyond 10^9 are projected to 10^9 (32-bit TLC integers): the rate of such a farm is taken as observed
+                                                              rate |-> IF end >= 1000000000 THEN Farms(p)[nid].rate ELSE F!EmissionRate(e.amt, start, end),
+                                                              start |-> start, end |-> end]),
        C11_create_autoclose_only_expired |-> G(good, /\ DOMAIN Farms(p) = (DOMAIN Farms(s) \ exp) \cup {nid}
                                                      /\ \A f \in DOMAIN Farms(s) \ exp : Farms(p)[f] = Farms(s)[f]),
        C11_create_accepts_exact |-> G(acceptable, e.ok),
